@@ -636,11 +636,15 @@ def join_case(draw):
     dup = [n for n in non_ids if "#" in n]
     cur = dict(jc)
     if dup:  # shared names must be disambiguated before anything else can reference or return them
-        if draw(st.booleans()):
+        c = draw(st.integers(0, 2))
+        if c == 0:
             pairs = [(n, "x%d" % (j + 1)) for j, n in enumerate(dup)]
             body.append(("rename", pairs)); m = dict(pairs); cur = {m.get(n, n): v for n, v in cur.items()}
-        else:
+        elif c == 1:
             body.append(("drop", dup)); cur = {n: v for n, v in cur.items() if n not in dup}
+        else:  # drop one side only: the remaining alias#Me_1 is exposed as Me_1
+            one = [draw(st.sampled_from(dup))]
+            body.append(("drop", one)); cur = {n: v for n, v in cur.items() if n not in one}
     else:
         choice = draw(st.sampled_from(["none", "filter", "calc", "keep", "drop", "aggr", "filter+calc"]))
         others = [n for n in cur if cur[n][0] != "I"]
@@ -708,6 +712,8 @@ def analytic_case(draw):
             if w == "range" and len(orderby) == 1 and comps[orderby[0][0]][1] == "Integer":
                 mode = "range"
             window = (mode, s_, e_)
+    if op in ("first_value", "last_value") and orderby and draw(st.booleans()):
+        window = ("rows", "up", "uf")   # whole partition with an ordering: the value still depends on asc / desc
     if op == "count":
         ci = dict(ci, rows={"DS_1": [dict(r, **{m: (r[m] if r[m] is not None else "1") for m in meas}) for r in ci["rows"]["DS_1"]]})
     measure = draw(st.sampled_from(meas)) if calc else None
